@@ -125,20 +125,56 @@ func RunC20(c *engine.Ctx) {
 				c.Case(func() any {
 					return map[string]any{"history": h.Name, "crash-before-step": k, "step": s.Kind, "bytes-of-write-performed": p}
 				}, func(t *engine.T) *engine.Violation {
-					return crashCase(t, h, k, p)
+					return crashCase(t, h, k, p, nil)
 				})
 			}
+		}
+		// recovery: the directory a crash leaves behind is the start state of the next process, which stores again
+		// (a shorter, a longer, an equally long document under the same identifier; another identifier)
+		if !h.CrossDevice {
+			c.Group(h.Name + "+recovery")
+			posts := recoveryOps(h)
+			c.Bound(h.Name+"+recovery", fmt.Sprintf("the same %d crash states, each followed in a new process by one of %d stores %v and a retrieve", points, len(posts), posts))
+			for k, s := range log {
+				maxP := 0
+				if s.Kind == "write" {
+					maxP = s.Bytes
+				}
+				for p := 0; p <= maxP; p++ {
+					for pi := range posts {
+						k, p, s, pi := k, p, s, pi
+						c.Case(func() any {
+							return map[string]any{"history": h.Name, "crash-before-step": k, "step": s.Kind, "bytes-of-write-performed": p, "then": posts[pi].String()}
+						}, func(t *engine.T) *engine.Violation {
+							return crashCase(t, h, k, p, &posts[pi])
+						})
+					}
+				}
+			}
+			c.Group(h.Name)
 		}
 		// crash after the last step = completed store
 		c.Case(func() any {
 			return map[string]any{"history": h.Name, "crash-before-step": len(log), "step": "none (store completed)"}
 		}, func(t *engine.T) *engine.Violation {
-			return crashCase(t, h, len(log), 0)
+			return crashCase(t, h, len(log), 0, nil)
 		})
 	}
 }
 
-func crashCase(t *engine.T, h crashHistory, k, p int) *engine.Violation {
+// recoveryOps: what the next process stores into the directory the crash left behind.
+func recoveryOps(h crashHistory) []op {
+	id := h.Last.ID
+	return []op{
+		{Kind: "store", Doc: "meta", ID: id}, // shorter than every other document
+		{Kind: "store", Doc: "d2", ID: id},
+		{Kind: "store", Doc: "d3", ID: id},         // the longest
+		{Kind: "store", Doc: h.Last.Doc, ID: id},   // the very document whose store was interrupted
+		{Kind: "store", Doc: "d1", ID: "other-id"}, // another entry
+	}
+}
+
+func crashCase(t *engine.T, h crashHistory, k, p int, post *op) *engine.Violation {
 	sandbox, dir, err := setup(h)
 	defer os.RemoveAll(sandbox)
 	if err != nil {
@@ -159,6 +195,34 @@ func crashCase(t *engine.T, h crashHistory, k, p int) *engine.Violation {
 	for i := range h.Pre {
 		if h.Pre[i].ID == h.Last.ID {
 			old = &h.Pre[i]
+		}
+	}
+	if post != nil {
+		// a new process stores again; when that store succeeds its document is what a retrieve must return
+		pd := docVariant(post.Doc, post.ID)
+		pr := doStore(dir, pd, post.NoClobber)
+		t.Transitions(1)
+		if pr.Panic != "" {
+			return engine.Violate("retrieve-panic", "recovery-store", "history %s, killed before step %d (%d bytes): the next process' %s panicked: %s", h.Name, k, p, *post, pr.Panic)
+		}
+		if pr.class() == "ok" {
+			gr := doRetrieve(dir, post.ID)
+			t.Transitions(1)
+			t.Validated(1)
+			if gr.class() != "ok" || !equalDocs(gr.Doc, pd) {
+				kind := "error"
+				if gr.class() == "ok" {
+					kind = fmt.Sprintf("a different document (id %q, name %q, %d nodes)", gr.Doc.GetMetadata().GetId(), gr.Doc.GetMetadata().GetName(), len(gr.Doc.GetNodeList().GetNodes()))
+				}
+				return engine.Violate("torn-entry", "after-recovery-store", "history %s, killed before step %d with %d bytes of it performed; the next process' %s succeeded, but Retrieve then gives %s %v; directory: %v", h.Name, k, p, *post, kind, gr.Err, listTree(sandbox))
+			}
+			t.Outcome("recovery:stored-and-retrieved")
+			if post.ID == h.Last.ID {
+				t.State(fmt.Sprint("recovery", h.Name, k, p, post.Doc))
+				return nil
+			}
+		} else {
+			t.Outcome("recovery:store-" + pr.class())
 		}
 	}
 	got := doRetrieve(dir, h.Last.ID)
